@@ -608,6 +608,11 @@ func txIG(name, table string, fields []string) config.Integration {
 	return ig
 }
 
+// traceIG: a trace-indexing integration (no event): one row per trace action (blocks + trace_block)
+func traceIG(name, table string) config.Integration {
+	return txIG(name, table, []string{"trace_action_from", "trace_action_to", "trace_action_value", "tx_hash"})
+}
+
 // approvalIG: like transferIG but on the Approval event (the second log of every transaction)
 func approvalIG(name, table string, extraFields []string, mod func(*config.Integration)) config.Integration {
 	ig := config.Integration{Name: name, Enabled: true}
